@@ -57,6 +57,7 @@ fn new_ctx<'a>(idx: &'a Index, module: &[String], self_ty: Option<String>, ret: 
         sig_params: vec![],
         value_depth: 0,
         prelude: vec![],
+        mut_self: false,
     }
 }
 
@@ -66,9 +67,6 @@ fn translate_fn(idx: &Index, fi: &FnInfo) -> R<Translated> {
     }
     if fi.cfg_rand {
         return Err("rand-gated (sampler)".into());
-    }
-    if fi.self_kind == SelfKind::MutRef {
-        return Err("&mut self method".into());
     }
     if fi.param_ref.iter().any(|r| *r == 2) {
         return Err("&mut parameter".into());
@@ -96,7 +94,13 @@ fn translate_fn(idx: &Index, fi: &FnInfo) -> R<Translated> {
         binders.push_str(&format!(" ({} : {})", ln, lt));
         cx.sig_params.push((ln, lt));
     }
-    let ret_s = cx.lean_ty(&fi.ret)?;
+    let mut ret_s = cx.lean_ty(&fi.ret)?;
+    if fi.self_kind == SelfKind::MutRef {
+        let st = fi.tybind.get("Self").cloned().ok_or("no Self")?;
+        cx.mut_self = true;
+        cx.bind("self", st.clone());
+        ret_s = format!("({} × {})", ret_s, cx.lean_ty(&st)?);
+    }
     let body = tr_stmts(&mut cx, &fi.body.stmts, &Cont::Value(Some(fi.ret.clone())))?;
     let sf = "⟪SF⟫";
     let hash = fnv(&fi.body.to_token_stream().to_string());
